@@ -59,6 +59,12 @@ pub struct Sched {
     /// synchronous code, outside every runtime context; 2: inside the context of another runtime that is never driven.
     /// It is always polled on the harness runtime: a lazy future binds to the context it is polled in
     pub create_ctx: u8,
+    /// async kinds, ungated runs: who polls the macro's future (0 = the controlled drivers). Task kinds: 1 multi-thread
+    /// runtime `block_on`; 2 `futures::executor::block_on` nested inside a multi-thread `block_on`; 3 the same inside
+    /// `block_in_place`; 4 `LocalSet` on a current-thread runtime; 5 `LocalSet` on a multi-thread runtime; 6 current-thread
+    /// `block_on`. Non-spawning kinds: 7 `futures::executor::block_on` outside every runtime; 8 tokio current-thread
+    /// `block_on`; 9 `futures::executor::LocalPool::run_until`.
+    pub poll_ctx: u8,
 }
 
 pub struct RunRec {
@@ -821,6 +827,58 @@ pub fn run_async_tasks(case: &Case, exp: &Exp, plan: &Plan, sched: &Sched) -> Ru
     let quiesced = crate::tok::live() == 0;
     let (l, st) = split_log();
     RunRec { outcome, log: l, stale: st, notes: d.notes, caller_thr, polls, decisions: d.decisions, max_held: d.max_held, quiesced, held_at_result: 0 }
+}
+
+/// Ungated run of an async kind under a given polling context (`Sched::poll_ctx`). Nothing is held back, so the future can
+/// complete at once whoever polls it; the run happens on a worker thread, an expiry (`Hung`) goes through the bounded-progress
+/// escalation of the engine (an abandoned worker is leaked).
+pub fn run_async_ctx(case: &Case, _exp: &Exp, plan: &Plan, sched: &Sched) -> RunRec {
+    let base_threads = os_threads();
+    setup(case.prog, plan);
+    let mk = match case.run {
+        Run::Async(f) => f,
+        _ => unreachable!(),
+    };
+    let ctx = sched.poll_ctx;
+    let (tx, rx) = std::sync::mpsc::channel::<(u32, Result<Out, String>)>();
+    let worker = std::thread::Builder::new().name("main".into()).spawn(move || {
+        let thr = log::thr();
+        let multi = || tokio::runtime::Builder::new_multi_thread().worker_threads(2).enable_time().build().expect("tokio rt");
+        let current = || tokio::runtime::Builder::new_current_thread().enable_time().build().expect("tokio rt");
+        let r = catch_unwind(AssertUnwindSafe(|| -> Out {
+            match ctx {
+                1 => multi().block_on(async { log::ROOT.scope(1, mk()).await }),
+                2 => multi().block_on(async { futures::executor::block_on(log::ROOT.scope(1, mk())) }),
+                3 => multi().block_on(async { tokio::task::block_in_place(|| futures::executor::block_on(log::ROOT.scope(1, mk()))) }),
+                4 => {
+                    let rt = current();
+                    tokio::task::LocalSet::new().block_on(&rt, log::ROOT.scope(1, mk()))
+                }
+                5 => {
+                    let rt = multi();
+                    tokio::task::LocalSet::new().block_on(&rt, log::ROOT.scope(1, mk()))
+                }
+                6 | 8 => current().block_on(async { log::ROOT.scope(1, mk()).await }),
+                7 => futures::executor::block_on(log::ROOT.scope(1, mk())),
+                _ => futures::executor::LocalPool::new().run_until(log::ROOT.scope(1, mk())),
+            }
+        }));
+        let _ = tx.send((thr, r.map_err(panic_msg)));
+    });
+    let bound = Duration::from_millis(sched.bound_ms.max(1));
+    let (caller_thr, outcome) = match rx.recv_timeout(bound) {
+        Ok((thr, Ok(o))) => (thr, Outcome::Done(o)),
+        Ok((thr, Err(m))) => (thr, Outcome::Panicked(m)),
+        Err(_) => (log::thr(), Outcome::Hung(format!("the macro's future did not complete within {:?} under polling context {} although no gate is held", bound, ctx))),
+    };
+    if !matches!(outcome, Outcome::Hung(_)) {
+        if let Ok(h) = worker {
+            let _ = h.join();
+        }
+    }
+    let quiesced = if matches!(outcome, Outcome::Hung(_)) { false } else { quiesce(Duration::from_secs(5), base_threads) };
+    let (l, st) = split_log();
+    RunRec { outcome, log: l, stale: st, notes: vec![], caller_thr, polls: 0, decisions: 0, max_held: 0, quiesced, held_at_result: 0 }
 }
 
 /// Stress driver for task kinds: real parallelism on a multi-thread tokio runtime. Gates (if any) are released
